@@ -43,7 +43,7 @@ def main():
                 res["suite_passes_with_patch"] = not hard and "FAIL\t" not in "\n".join(l for l in fails if "merkleroots" not in l)
                 res["suite_fail_lines"] = fails[:10]
                 # demo: with patch must fail
-                demo_cmd = meta["demo_cmd"].replace("<worktree>", wt).replace("/tmp/seed4_" + prop, wt).replace("/tmp/seed3_" + prop, wt).replace("/tmp/seed2_" + prop, wt).replace("/tmp/seed_" + prop, wt)
+                demo_cmd = meta["demo_cmd"].replace("<worktree>", wt).replace("/tmp/seed5_" + prop, wt).replace("/tmp/seed4_" + prop, wt).replace("/tmp/seed3_" + prop, wt).replace("/tmp/seed2_" + prop, wt).replace("/tmp/seed_" + prop, wt)
                 for f in os.listdir(src):
                     if f.startswith("demo"):
                         demo_cmd = demo_cmd.replace("cp " + f, "cp " + os.path.join(os.path.abspath(src), f))
